@@ -119,6 +119,22 @@ def main(tier, replay=None):
         C.finish(run, "C19", C.report(run, "C19", jr["V"], {1: traces[0]}))
     mc = C.tlc_ok(C.tlc("Intervals", f"SPECIFICATION Spec\nCONSTANTS {cfg['mc']}\nINVARIANT ScanCorrect\nINVARIANT Laws\nINVARIANT ValidCutType\n"
                         .replace("INVARIANT ValidCutType\n", ""), run.dir, name="MC_Intervals", args=["-coverage", "1"]), "model check")
+    # unbounded: TLAPS proves symmetry, trichotomy and positivity of the interval definitions for ALL integer intervals
+    import subprocess
+    import shutil as _sh
+    pdir = run.sub("proofs")
+    _sh.copy(C.SPEC / "proofs" / "IntervalLaws.tla", pdir / "IntervalLaws.tla")
+    try:
+        pr = subprocess.run(["tlapm", "--toolbox", "0", "0", "IntervalLaws.tla"], cwd=str(pdir), capture_output=True, text=True, timeout=600)
+        pout = pr.stdout + pr.stderr
+    except Exception as e:  # noqa: BLE001
+        pout = "tlapm failed: " + repr(e)
+    import re as _re
+    mproved = _re.search(r"All (\d+) obligations? proved", pout)
+    proofs = {"tool": "tlapm (SMT backend)", "module": "spec/proofs/IntervalLaws.tla", "theorems": ["Symmetric", "Trichotomy", "OverlapPositive"],
+              "obligations_proved": int(mproved.group(1)) if mproved else 0, "all_proved": bool(mproved)}
+    if not mproved:
+        print("note: TLAPS did not prove all obligations of IntervalLaws.tla (design-level garnish, not a verdict):", pout[-300:])
     base = "INIT ScenInit\nNEXT ScenNext\nCHECK_DEADLOCK FALSE\nCONSTRAINT Emit\nCONSTANTS "
     sp = C.export("IntervalsScen", base + cfg["pairs"] + ' Which = "pairs"\n', run.dir, name="scen-pairs")
     pairs = sp["objs"]
@@ -156,7 +172,7 @@ def main(tier, replay=None):
                 "fragments; a sample also through the real asm-format --qc-overlaps CLI; non-trivial = same-named pair / assembly with an overlap",
         "pair_constants": cfg["pairs"], "assembly_constants": cfg["asm"], "model_constants": cfg["mc"],
         "pair_traces": len(tp), "assembly_traces": len(ta), "cli_runs": len(clisel), "assemblies_with_overlap": jr["N"].get("asm_with_overlap", 0),
-        "action_coverage": C.coverage_counts(mc["out"]),
+        "action_coverage": C.coverage_counts(mc["out"]), "unbounded_proofs_of_definition_laws": proofs,
         "samples": [tp[len(tp) // 2], ta[len(ta) // 2], [t for t in ta if t["cli"]][0]],
         "known_findings_seen": run.known,
     }
